@@ -18,6 +18,9 @@
                 documents / file names with non-ASCII, non-BMP and undecodable characters, in processes
                 whose stdout has the encoding of several environments (utf-8, ascii, cp1252, C locale):
                 there rc = 0 and eq mean "the bytes written decode and parse to the library's JSON"
+                The path argument ranges over path forms (absolute, relative, with . / .. components,
+                symbolic links whose name and suffix differ from the target's, files below a symlinked
+                directory): the library's JSON is that of read_file(<the very path string given>).
      CliItem    one result (--json) / unit (--json-unit) of the CLI's stdout with the object it came from
                 (multi-result inputs: archives of documents with images, and small single results)
 
